@@ -402,7 +402,7 @@ def run(chk, replay=None):
 
     done = 0
     attempts = 0
-    plan = (['s'] * 8 + ['ivp'] * 7 + ['ac'] * 6 + ['dc'] * 4) if quick else (['s'] * 60 + ['ivp'] * 60 + ['ac'] * 50 + ['dc'] * 30)
+    plan = (['s'] * 8 + ['ivp'] * 7 + ['ac'] * 6 + ['dc'] * 4) if quick else (['s'] * 40 + ['ivp'] * 40 + ['ac'] * 35 + ['dc'] * 25)
     while done < len(plan) and attempts < 6 * len(plan):
         attempts += 1
         kind = plan[done]
@@ -536,7 +536,7 @@ def run(chk, replay=None):
         t_net = _time.time()
         fam = 'random-tree'
         # the directed families always run; random trees only while the stream's time budget lasts (counted, never reported)
-        if k >= ndirected_nets + nodd_nets + nmerge_nets and _time.time() - t_stream > (55 if quick else 420):
+        if k >= ndirected_nets + nodd_nets + nmerge_nets and _time.time() - t_stream > (55 if quick else 240):
             chk.count('oneport', 'random-tree-skipped:stream-time-budget')
             continue
         try:
@@ -643,7 +643,7 @@ def run(chk, replay=None):
             out.append(' '.join(tk))
         return out
 
-    for k in range(9 if quick else 100):
+    for k in range(9 if quick else 80):
         sp = Fraction(rng.randint(1, 9), rng.randint(2, 5))
         if k % 5 == 4:
             case = gen_netlist.random_case(rng, analysis='s', max_nodes=5)
@@ -734,7 +734,7 @@ def run(chk, replay=None):
     def m2s(M):
         return ' '.join(fstr(x_) for x_ in M)
 
-    for k in range(6 if quick else 60):
+    for k in range(6 if quick else 40):
         sp = Fraction(rng.randint(1, 9), rng.randint(2, 5))
         if k % 3 == 2:
             case = gen_netlist.random_case(rng, analysis=rng.choice(['s', 'ivp']), max_nodes=5)
